@@ -618,6 +618,12 @@ def dirty_entry(ct: Container, rep, rule="dirty-entry"):
         name = ff.f.name
         fq = f"Tdf.{name}"
         cfg = ff.cfg
+        # the table object is replaced wholesale (`self.entries = <saved list>`): a memory-only change of every slot at once - the file
+        # keeps the table it has, the open object announces another one
+        for e in ff.ev("table_rebind"):
+            n += 1
+            rep.fail(rule, MOD(ct), fq, e.stmt, f"`{norm(head(e.stmt))[:60]}` replaces the in-memory table wholesale without rewriting the slots on disk: the open object and the file no longer describe the same blocks",
+                     construct=f"{fq} rebinds the table")
         writes = ff.ev("entry_write")
         for e in ff.ev("table_store", "table_append", "field_assign"):
             ent = e.value if e.kind in ("table_store", "table_append") else e.entry
